@@ -83,7 +83,7 @@ class _CanaryDrv(_DeployBase):
     def build(self, cfg):
         self.fleet(cfg, n=2)
         self.cd = CanaryDeployer("canary", load_balancer=self.lb, server_factory=self.factory,
-                                 stages=[CanaryStage(0.25, 1.0), CanaryStage(1.0, 1.0)],
+                                 stages=[CanaryStage(0.25, P(1.0)), CanaryStage(1.0, P(1.0))],
                                  metric_evaluator=self.evaluator(), evaluation_interval=P(0.5))
         return [*self.servers, self.lb, self.cd]
 
@@ -226,7 +226,7 @@ class DNSResolverDrv(Drv):
     def request(self, i, op):
         host = {"resolve": "a.example", "resolve_other": "b.example", "resolve_unknown": "nope"}[op]
         yield from self.dns.resolve(host)
-        yield 1.0
+        yield P(1.0)
         yield from self.dns.resolve(host)
         return None
 
